@@ -483,7 +483,24 @@ fn check_prints_as(worlds: &[World], p: &cedar_policy::Policy, case: &str, out: 
         match cedar_policy::Policy::parse(Some(p.id().clone()), &printed) {
             Ok(p3) => {
                 out.count("f_printed_parses");
-                if let Some(d) = diff_policy(p.as_ref(), p3.as_ref()) { out.count("f_printed_differs_structurally"); let _ = d; }
+                if let Some(d) = diff_policy(p.as_ref(), p3.as_ref()) {
+                    // the printed text parses to a structurally different policy: that is not yet a violation (the property
+                    // speaks of evaluation), so search for a request on which the two evaluate differently — boundary-heavy worlds
+                    out.count("f_printed_differs_structurally");
+                    let mut sr = crate::rng::Rng::new(0xF00D ^ (printed.len() as u64));
+                    let mut found = false;
+                    for _ in 0..400 {
+                        let w = crate::gen::gen_world(&mut sr);
+                        let (a, b) = (eval_of(&w, p.as_ref()), eval_of(&w, p3.as_ref()));
+                        out.count("f_directed_evaluations");
+                        if a != b {
+                            out.propfail(&format!("(f) JSON policy evaluates differently from the text it prints as ({how}, directed search after structural difference)"), case, &format!("{d} ; json: {a:?} ; printed `{printed}`: {b:?}"));
+                            found = true;
+                            break;
+                        }
+                    }
+                    if !found { out.count("f_structural_difference_no_semantic_difference_found"); }
+                }
                 for w in worlds {
                     let (a, b) = (eval_of(w, p.as_ref()), eval_of(w, p3.as_ref()));
                     out.count("f_evaluations");
@@ -914,6 +931,34 @@ pub fn run(args: &Args, out: &mut Out) {
             Ok(e) => model_lines_for_expr(&e, out, "fixed"),
             Err(e) => out.propfail("fixed expression does not parse", t, &e.to_string()),
         }
+    }
+    // operator-nesting grid: every binary operator as the left / right child of every binary operator, leaves reading
+    // long / bool context attributes, each as a whole policy through every format check (incl. (f): printed text)
+    {
+        let mut gr = Rng::new(args.seed ^ 0x9e1d);
+        let worlds: Vec<World> = (0..3).map(|_| gen::gen_world(&mut gr)).collect();
+        let arith = ["+", "-", "*"];
+        let boolean = ["&&", "||"];
+        let l = ["context.n", "context.m", "context[\"if\"]", "3", "9223372036854775807"];
+        let b = ["context.b", "(context.n < 2)", "true", "(context has zz)"];
+        let mut k = 0;
+        for o1 in arith { for o2 in arith {
+            for (x, y, z) in [(l[0], l[1], l[2]), (l[3], l[4], l[0]), (l[1], l[1], l[4])] {
+                for text in [format!("({x} {o1} ({y} {o2} {z})) == 0"), format!("(({x} {o1} {y}) {o2} {z}) == 0"), format!("-({x} {o1} {y}) {o2} {z} < 1")] {
+                    let sp = Spec { id: format!("g{k}"), text: format!("permit(principal, action, resource) when {{ {text} }};"), annotations: vec![], link: None };
+                    if let Some(bt) = check_one(&mut gr, &worlds, &sp, out) { check_set(&worlds, &[bt], out); }
+                    k += 1; out.count("nesting_grid");
+                }
+            }
+        } }
+        for o1 in boolean { for o2 in boolean {
+            for text in [format!("{} {o1} ({} {o2} {})", b[0], b[1], b[3]), format!("({} {o1} {}) {o2} {}", b[0], b[1], b[3]), format!("!({} {o1} {}) {o2} {}", b[2], b[0], b[1]),
+                         format!("if {} {o1} {} then {} {o2} {} else {}", b[0], b[1], b[3], b[0], b[1])] {
+                let sp = Spec { id: format!("g{k}"), text: format!("forbid(principal, action, resource) unless {{ {text} }};"), annotations: vec![], link: None };
+                if let Some(bt) = check_one(&mut gr, &worlds, &sp, out) { check_set(&worlds, &[bt], out); }
+                k += 1; out.count("nesting_grid");
+            }
+        } }
     }
     // generated policies / templates / sets
     let mut i = 0u64;
